@@ -2,12 +2,12 @@ SPECIFICATION Spec
 CONSTANTS
   Stacks <- StacksTags
   Outcomes <- Out1
-  TagOps <- TagOps3
+  TagOps <- TagOps4
   Times = {"1", "2"}
-  MaxCalls = 9
+  MaxCalls = 10
   MaxTests = 2
   MaxRuns = 1
-  MaxTagOps = 3
+  MaxTagOps = 2
   MaxTimes = 0
   AllowStop = FALSE
   AllowSetFF = FALSE
